@@ -99,6 +99,12 @@ func init() {
 	add("C09", "C18", "C18.R1")
 	// the method names the library prints are the names the -agg-method flag takes back
 	add("C19", "C02", "C02.R2~^aggregationMethodValue")
+	// sum reads its files through an errgroup: every worker is started and waited for
+	add("C16", "C17", "C17.R3")
+	// the blocking exclusive lock is what makes overlapping requests on one file take turns
+	add("C17", "C13", "C13.R2")
+	// copy into a fresh destination goes through the batch writer's choice of the base interval
+	add("C08", "C06", "C06.R6~^archiveUpdateMany")
 	// the text output of sum shows stored values and slot times as they are
 	add("C10", "C18", "C18.R1")
 	// what the handlers stream is decoded by the clients: encoder and decoder agree field by field
